@@ -1197,6 +1197,39 @@ pub fn generate(name: &str, count: usize, rng: &mut Rng, sink: &mut dyn FnMut(Se
                 sink(Session { sid: format!("v1straddle-{}", i), tag: json!({"g": "v1straddle"}), chunks, huge: None, consume: false, inplace: false, prelude: Vec::new() });
             }
         }
+        // address TEXTS that hand-written parsers get wrong, each as the source and as the destination
+        // field of a TCP4 and of a TCP6 line (the specification's grammar decides which are valid),
+        // plus randomly damaged spellings; all of the fixed list on every run
+        "v1ipfield" => {
+            let tricky: [&str; 64] = ["1::", "::1", "::", "1::2::3", "1:2:3:4:5:6:7::", "::2:3:4:5:6:7:8", "1:2:3:4:5:6:7:8", "1:2:3:4:5:6:1.2.3.4", "::1.2.3.4",
+                "1.2.3.4::", "::ffff:1.2.3.4", "0:0:0:0:0:0:0:0", "00001::", "0001::", "1::00000", "ffff::", "FFFF::", "fFfF::aBcD", "1:2:3:4:5:6:7", "1:2:3:4:5:6:7:8:9",
+                ":1", "1:", ":::", "::1.2.3", "::1.2.3.256", "::01.2.3.4", "1.2.3.4", "1.2.3", "1.2.3.4.5", "01.2.3.4", "1.2.3.04", "256.1.1.1", "1.1.1.256", "0.0.0.0",
+                "255.255.255.255", "1..2.3", ".1.2.3", "1.2.3.", "0x1.2.3.4", "1:2:3:4:5:6:7:1.2.3.4", "1:2:3:4:5:1.2.3.4", "::1:2:3:4:5:6:7", "1:2:3:4:5:6:7::8", "1::8",
+                "1:0:0:0:0:0:0:8", "0:0:1::", "::0", "0::0", "::0.0.0.0", "::255.255.255.255", "g::", "1::g", "1:::2", "12345::1", "1::12345", "::1%1", "1:2:3:4::5:6:7:8",
+                "1:2:3::4:5:6:7:8", "::ffff:256.1.1.1", "::ffff:1.2.3", "1.2.3.4:80", "-1.2.3.4", "1.2.3.-4", "1.2.3.4e0"];
+            let mut texts: Vec<String> = tricky.iter().map(|x| x.to_string()).collect();
+            for _ in 0..count {
+                let mut t = render_ipv6(random_groups(rng), rng);
+                if !t.is_empty() && rng.chance(2, 3) {
+                    let p = rng.below(t.len() as u64) as usize;
+                    match rng.below(4) {
+                        0 => { t.remove(p); }
+                        1 => t.insert(p, *rng.pick(&[':', '0', '.', 'g', 'F'])),
+                        2 => { t.truncate(p); }
+                        _ => { t = t.to_uppercase(); }
+                    }
+                }
+                texts.push(t);
+            }
+            for (i, t) in texts.iter().enumerate() {
+                for variant in 0..4usize {
+                    let (proto, other) = if variant < 2 { ("TCP4", "10.0.0.1") } else { ("TCP6", "2001:db8::1") };
+                    let line = if variant % 2 == 0 { format!("PROXY {} {} {} 1 2\r\n", proto, t, other) } else { format!("PROXY {} {} {} 65535 0\r\n", proto, other, t) };
+                    let bytes = line.into_bytes();
+                    sink(Session { sid: format!("v1ipfield-{}-{}", i, variant), tag: json!({"g": "v1ipfield"}), chunks: vec![bytes], huge: None, consume: false, inplace: false, prelude: Vec::new() });
+                }
+            }
+        }
         // arbitrary bytes over small alphabets, incl. multi-byte characters next to CR
         "v1junk" => {
             let pieces: [&[u8]; 14] = [b"P", b"PROXY", b" ", b"\r", b"\n", "\u{e9}".as_bytes(), "\u{20ac}".as_bytes(), "\u{1F600}".as_bytes(), b"UNKNOWN", b"TCP4", b"1", b"\xff", b"\x00", b"::"];
